@@ -146,7 +146,7 @@ def replay_file(path):
     if body.get("fn"):
         from vx import static_checks as sc
 
-        r = getattr(sc, body["fn"])(body["case"])
+        r = sc._run_case((body["fn"], body["case"]))
         want = (body["kind"], json.dumps(body.get("sig", {}), sort_keys=True, default=repr))
         got = [(v["kind"], json.dumps(v.get("sig", {}), sort_keys=True, default=repr)) for v in r.get("violations", [])]
         for g in got:
@@ -533,3 +533,114 @@ def c16(tier, seed, only=None):
 
 
 REGISTRY.update({"C14": c14, "C15": c15, "C16": c16})
+
+
+def c20(tier, seed, only=None):
+    t0 = time.time()
+    cases = [{"name": n, "short": s, "long": l} for n, s, l in gen.c20_pairs(tier)]
+    if only:
+        cases = [c for c in cases if only in c["name"]]
+    res = sc.run_cases("check_c20", cases, seed=seed)
+    rule = (
+        "pairs (shorthand, long form) generated from one abstract definition by a reference normaliser: "
+        "action inline parameters and publish strings over the documented inline value grammar (%d value "
+        "forms: integers, negative/decimal numbers, booleans in any case, null, single/double quoted strings "
+        "incl. '=', ',', ' in ', ';', quoted numbers/booleans, quoted JSON objects, YAQL/Jinja expressions) "
+        "x delimiters {space, comma, semicolon} x 1-3 parameters; do string vs list; omitted do vs continue; "
+        "with string vs mapping; compared: inspect(), composed graph, and under the all-success and two "
+        "one-failure schedules every offer (action, input, ctx), contexts, output, status, errors"
+        % len(gen.INLINE_VALUES)
+    )
+    samples = [{"short": cases[0]["short"]["tasks"]["t1"], "long": cases[0]["long"]["tasks"]["t1"]}]
+    return runner.finish_static("C20", tier, seed, "exploration", [("check_c20", res)], rule, t0, samples)
+
+
+REGISTRY.update({"C20": c20})
+
+
+# ------------------------------------------------------------------ C19
+def c19(tier, seed, only=None):
+    import tempfile
+
+    from vx import c19 as c19m
+
+    t0 = time.time()
+    # (c) purity of get_next_tasks in every explored state
+    mons = [B + "Purity"]
+    jobs = []
+    for s in gen.f2_all(tier) + gen.f4_all(tier) + gen.f5_all(tier) + gen.f6_publish(tier):
+        cfg = dict(horizon=60, pause=1, resume=1, cancel=1, dev=2 if tier == "quick" else 4)
+        jobs.append(job(s, cfg, mons))
+    for s in gen.f3_all():
+        jobs.append(job(s, dict(horizon=120, dev=1 if tier == "quick" else 2), mons))
+    jobs = _filter(jobs, only)
+    results = runner.run_jobs(jobs, seed=seed)
+    # (a) separate processes with different hash seeds
+    scns = [{"name": s.name, "wf": s.wf, "inputs": s.inputs} for s in
+            gen.f2_all(tier) + gen.f3_all() + gen.f4_all(tier) + gen.f5_all(tier) + gen.f6_publish(tier)]
+    scns += [{"name": n, "wf": wf, "inputs": {}} for n, wf in gen.graph_shapes(tier)]
+    if tier != "quick":
+        scns += [{"name": s.name, "wf": s.wf, "inputs": s.inputs} for s in gen.f1_all(2)]
+    # a definition that calls random() is not a function of its inputs by its own choice
+    scns = [x for x in scns if "random(" not in json.dumps(x["wf"])]
+    if only:
+        scns = [x for x in scns if only in x["name"]]
+    k = 4 if tier == "quick" else 16
+    seeds = [0, 1, 4242, (seed * 7919 + 13) % 4294967295][:k] if k == 4 else \
+        [0, 1, 4242, (seed * 7919 + 13) % 4294967295] + [97 * i + 5 for i in range(12)]
+    extra_v = []
+    with tempfile.TemporaryDirectory() as td:
+        res = c19m.run_seeds(scns, seeds, td)
+    ref_seed = seeds[0]
+    n_cmp = 0
+    for sd in seeds[1:]:
+        for name, dg in res[ref_seed].items():
+            n_cmp += 1
+            if res[sd].get(name) != dg:
+                aspect = [a for a in sorted(dg) if res[sd].get(name, {}).get(a) != dg[a]][0]
+                sc_ = [x for x in scns if x["name"] == name][0]
+                extra_v.append({"property": "C19", "kind": "hash_seed_dependent", "sig": {"artefact": aspect},
+                                "detail": {"seeds": [ref_seed, sd]}, "scenario": {"name": name, "wf": sc_["wf"]},
+                                "history": [], "confirmed": True, "fn": "vx.c19.check_seedpair",
+                                "case": {"name": name, "wf": sc_["wf"], "inputs": sc_.get("inputs"),
+                                         "seeds": [ref_seed, sd]}})
+                break
+    # (b) set-order shim
+    lits = c19m.scan_set_literals()
+    for site in lits:
+        extra_v.append({"property": "C19", "kind": "set_literal_not_intercepted", "sig": {"site": site},
+                        "detail": "", "scenario": {"name": site, "wf": {}}, "history": [], "confirmed": True})
+    shim_cases = [dict(x) for x in scns]
+    sres = sc.run_cases("vx.c19.check_setorder", shim_cases, seed=seed)
+    runs = sum(r.get("runs", 0) for r in sres)
+    points = sum(r.get("choice_points", 0) for r in sres)
+    for r in sres:
+        if "harness_error" in r:
+            print("HARNESS-ERROR\n" + r["harness_error"])
+            return 2
+        for v in r.get("violations", []):
+            v["fn"] = "vx.c19.check_setorder"
+            v["scenario"] = {"name": v["case"]["name"], "wf": v["case"]["wf"]}
+            v["history"] = []
+            v["confirmed"] = True
+            extra_v.append(v)
+    rule = (
+        "(c) every dispatch of the exploration (F2-F6 with control budgets, fixtures deviation-bounded) asks "
+        "get_next_tasks twice and compares answers and serialize(); (a) %d separate interpreter processes with "
+        "different PYTHONHASHSEED compute digests of inspect(), compose().serialize() and a canonical conducted "
+        "history (every offer and persisted state) for %d definitions, all digests must agree; (b) a set "
+        "subclass injected into the engine modules makes the iteration order of every iterated set a choice "
+        "point: every single deviation from the canonical order (all permutations for size <= 3) is replayed "
+        "and the same artefacts must be identical" % (len(seeds), len(scns))
+    )
+    return runner.finish("C19", tier, seed, MC, results, rule, t0, mons,
+                         extra_cov={"hash_seeds": seeds, "seed_comparisons": n_cmp, "set_order_choice_points": points,
+                                    "set_order_replays": runs, "definitions_for_seed_and_set_order": len(scns)},
+                         extra_violations=extra_v,
+                         assumptions=["hash seeds cannot be enumerated; the range of hash-order nondeterminism is "
+                                      "covered by enumerating iteration orders of the sets the engine iterates "
+                                      "(set literals/comprehensions would escape the shim; an AST scan fails the "
+                                      "check if one appears in the engine modules)"])
+
+
+REGISTRY.update({"C19": c19})
